@@ -183,7 +183,11 @@ func Main(args []string) int {
 	}
 	if touch != "" {
 		_ = os.MkdirAll(filepath.Dir(filepath.Join(root, touch)), 0755)
-		_ = os.WriteFile(filepath.Join(root, touch), []byte("ok\n"), 0644)
+		content := "ok\n"
+		if strings.HasPrefix(filepath.Base(touch), "blank_") {
+			content = "" // the condition of a check that expects no output
+		}
+		_ = os.WriteFile(filepath.Join(root, touch), []byte(content), 0644)
 	}
 	if rm != "" && rmIf != "" && exists(filepath.Join(root, rmIf)) {
 		_ = os.Remove(filepath.Join(root, rm)) // the command itself destroys a checked condition
